@@ -32,6 +32,7 @@ type PipeParams struct {
 	Faults    bool     `json:"faults"` // a save may fail (free choice at the first checkpoint write of a save)
 	Auto      bool     `json:"auto"`
 	CrashEnd  bool     `json:"crash_end"` // always finish with crash+restart
+	Latest    bool     `json:"latest"`    // checkpoint.autoReset = latest
 }
 
 var skipT = time.Unix(1_700_000_100, 0)
@@ -233,6 +234,9 @@ func newPipe(p PipeParams) *pipe {
 	o := EnvOpts{Vbs: 2, CheckpointType: "manual", WrapMeta: true, CheckpointInterval: 10 * time.Second}
 	if p.Auto {
 		o.CheckpointType = "auto"
+	}
+	if p.Latest {
+		o.AutoReset = "latest"
 	}
 	if p.SkipUntil {
 		t := skipT
